@@ -109,6 +109,9 @@ impl CaseSpace for PerType {
     fn name(&self) -> String {
         "per-type-accounting".into()
     }
+    fn seeded(&self) -> bool {
+        true
+    }
     fn total(&self) -> usize {
         8 * 2 * 2 * 5 * 2
     }
@@ -452,6 +455,9 @@ pub struct OverflowPerType;
 impl CaseSpace for OverflowPerType {
     fn name(&self) -> String {
         "overflow-indication-per-type".into()
+    }
+    fn seeded(&self) -> bool {
+        true
     }
     fn total(&self) -> usize {
         8 * 8 * 2
